@@ -190,8 +190,14 @@ def examine_bulgarian(case):
         carriers.append(('int', c // 100))
     if ev in junior.BG_TIMED:
         carriers.append(('text2', fmt2(c)))
+        if c % 10 == 0:
+            carriers.append(('text1', '%d.%d' % (c // 100, (c % 100) // 10)))      # one decimal is the same figure here
         if c >= 6000:
             carriers.append(('m:ss.xx', mss(c)))
+            if c % 10 == 0:
+                carriers.append(('m:ss.x', mss(c)[:-1]))
+            if c % 100 == 0:
+                carriers.append(('m:ss', mss(c)[:-3]))
     for name, perf in carriers:
         _cmp(out, 'equals-table', ['bulgarian'], case, name, call(score, 'U16', g, ev, perf), want)
     return out
